@@ -5,10 +5,13 @@ import l2tharness as H
 PID = 'C03'
 PROJECTION = 'text (strict end-to-end with the default databases)'
 RULE = ('documents derived from the core-sublanguage grammar (plain text, whitespace, paragraph breaks, comments, groups, '
-        'font/formatting macros, symbol and accent macros, \\frac \\sqrt, specials ~ -- --- `` \'\' &, itemize/enumerate with '
+        'font/formatting macros, symbol macros, accent macros over one letter (braced or as a token), over 2-3 letters, over '
+        'a symbol macro or over a short item list (\\vec{ab} \\hat{\\alpha} \\dot{\\phi} \\tilde{\\epsilon}), \\frac \\sqrt, '
+        'specials ~ -- --- `` \'\' &, itemize/enumerate with '
         '\\item, center and unknown environments, inline and display math with all four delimiter pairs) with explicit '
         'whitespace at every boundary (after bare macros, between constructs, after comments, inside and outside equations); '
-        'x 6 strict_latex_spaces values x 4 math modes x keep_braced_groups x keep_comments; plus pairs of self-contained '
+        'x 6 strict_latex_spaces values x 4 math modes x keep_braced_groups (with keep_braced_groups_minlen 0..3 or the '
+        'default) x keep_comments; plus pairs of self-contained '
         'blocks joined by a paragraph break or a space. Non-trivial: the document contains a bare macro or a comment or math '
         'next to whitespace.')
 EXHAUSTIVE = {'quick': False, 'thorough': False}
@@ -45,8 +48,10 @@ REFUTED = []
 CASE_TIMEOUT = 10.0
 TXT = 'abcdefghxyzABC0123456789.,;:'
 FMT = ['textbf', 'emph', 'textit', 'text', 'textrm', 'textsc', 'mathrm']
-SYM = ['alpha', 'beta', 'Gamma', 'infty', 'times', 'ldots', 'S', 'ae', 'LaTeX', 'zzunknown', 'cdot', 'to']
-ACC = ["'", '`', '"', '^', '~', 'c', 'v', 'hat', 'bar', 'vec']
+SYM = ['alpha', 'beta', 'Gamma', 'infty', 'times', 'ldots', 'S', 'ae', 'LaTeX', 'zzunknown', 'cdot', 'to', 'phi', 'ell',
+       'epsilon']
+ACC = ["'", '`', '"', '^', '~', 'c', 'v', 'hat', 'bar', 'vec', 'dot', 'tilde']
+ACCSYM = ['alpha', 'phi', 'ell', 'epsilon', 'beta', 'Gamma']      # symbol macros used as accent arguments
 SPC = ['~', '--', '---', '``', "''", '&']
 CLOSE = {'$': '$', '\\(': '\\)', '$$': '$$', '\\[': '\\]'}
 
@@ -84,10 +89,17 @@ class G:
         if k < 0.78:
             return ('sym', r.choice(SYM), r.choice(['', ' ', '  ', '\n']))
         if k < 0.83:
+            # ('acc', name, argument, token form): the argument is one letter (a string; braced or, in token
+            # form, bare), or - always braced - an item list: 2-3 letters, a symbol macro, any short item list
             a = r.choice(ACC)
-            letter = r.choice('aeiouncszAEO')
-            tokform = r.random() < 0.3
-            return ('acc', a, letter, tokform)
+            q = r.random()
+            if q < 0.45:
+                return ('acc', a, r.choice('aeiouncszAEO'), r.random() < 0.4)
+            if q < 0.70:
+                return ('acc', a, [('t', ''.join(r.choice('abeiouxyAE') for _ in range(r.randint(2, 3))))], False)
+            if q < 0.90:
+                return ('acc', a, [('sym', r.choice(ACCSYM), '')], False)
+            return ('acc', a, self.items(depth + 1, math), False)
         if k < 0.87:
             return ('frac', [self.txt()], [self.txt()]) if r.random() < 0.5 else ('sqrt', None if r.random() < 0.5 else [self.txt()], self.items(depth + 1, math))
         if k < 0.91:
@@ -150,7 +162,7 @@ def lay1(it):
     if k == 'acc':
         if it[3]:
             return '\\' + it[1] + (' ' if it[1][-1].isalpha() else '') + it[2]
-        return '\\' + it[1] + '{' + it[2] + '}'
+        return '\\' + it[1] + '{' + (it[2] if isinstance(it[2], str) else lay(it[2])) + '}'
     if k == 'frac':
         return '\\frac{' + lay(it[1]) + '}{' + lay(it[2]) + '}'
     if k == 'sqrt':
@@ -252,8 +264,10 @@ def render1(n, o, sl):
             return '%' + n[1] + ('\n' if sl['ac'] else n[2])
         return '' if sl['ac'] else n[2]
     if k == 'grp':
+        # a group is transparent; with keep_braced_groups its braces are kept when the contents are at least
+        # keep_braced_groups_minlen (default 2) characters long
         c = render(n[1], o, sl)
-        return '{' + c + '}' if (o.get('keep_braced_groups') and len(c) >= 2) else c
+        return '{' + c + '}' if (o.get('keep_braced_groups') and len(c) >= o.get('keep_braced_groups_minlen', 2)) else c
     if k == 'fmt':
         return render(n[2], o, sl)
     if k == 'sym':
@@ -262,7 +276,12 @@ def render1(n, o, sl):
         sp = t['db'].get_macro_spec(n[1])
         return '' if sp is None else (sp.simplify_repl or '')
     if k == 'acc':
-        return unicodedata.normalize('NFC', n[2] + t['acc'][n[1]])
+        # the accent goes over every character of the (stripped) text of the argument's CONTENTS: the braces of
+        # a braced argument delimit the argument, they are not a group (never kept, whatever keep_braced_groups
+        # says); a dotless i / j takes the accent as i / j
+        c = n[2] if isinstance(n[2], str) else render(n[2], o, sl)
+        comb = t['acc'][n[1]]
+        return ''.join(unicodedata.normalize('NFC', {'\u0131': 'i', '\u0237': 'j'}.get(ch, ch) + comb) for ch in c.strip())
     if k == 'frac':
         return render(n[1], o, sl) + '/' + render(n[2], o, sl)
     if k == 'sqrt':
@@ -295,6 +314,8 @@ def _opts(rnd):
     o = {'strict_latex_spaces': rnd.choice(H.SLS_VALUES), 'math_mode': rnd.choice(H.MATH_VALUES)}
     if rnd.random() < 0.3:
         o['keep_braced_groups'] = True
+        if rnd.random() < 0.6:
+            o['keep_braced_groups_minlen'] = rnd.choice([0, 1, 2, 3])
     if rnd.random() < 0.3:
         o['keep_comments'] = True
     return o
